@@ -7,6 +7,10 @@ from ..props.common import exc_class
 
 _REF = {}
 
+from .. import refschema as _rsm  # noqa: E402
+
+_rsm.RESET_HOOKS.append(_REF.clear)
+
 
 def ref_for(schema):
     r = _REF.get(id(schema))
